@@ -802,3 +802,70 @@ Fixpoint lookup_seq (st : mstate) (calls : list (list Z * list Z * nat)) : mstat
                   ms_regs := ms_regs st ++ (match r with KL_found _ _ _ reg => [reg] | _ => [] end) |} in
     let '(st2, rs) := lookup_seq st' rest in (st2, r :: rs)
   end.
+
+(* ---------------------------------------------------------------- index files (colvarmodule::read_index_file) *)
+
+(* `while ((is >> atom_number) && (atom_number > 0))`: the numbers of a group and the text after the last good one *)
+Fixpoint index_numbers (fuel : nat) (l : list Z) : list Z * list Z :=
+  match fuel with
+  | O => ([], l)
+  | S f =>
+    match skip_space l with
+    | [] => ([], [])
+    | c :: t => match extract_int (c :: t) with
+                | ExtOk v rest => if 0 <? v then let '(vs, r) := index_numbers f rest in (v :: vs, r) else ([], l)
+                | ExtFail => ([], l)
+                end
+    end
+  end.
+
+Fixpoint assoc_find (name : list Z) (gs : list (list Z * list Z)) : option (list Z) :=
+  match gs with
+  | [] => None
+  | (n, v) :: r => if list_eqb n name then Some v else assoc_find name r
+  end.
+
+Fixpoint int_list_eqb (a b : list Z) : bool :=
+  match a, b with
+  | [], [] => true
+  | x :: a', y :: b' => (x =? y) && int_list_eqb a' b'
+  | _, _ => false
+  end.
+
+Inductive index_result := IndexOk (groups : list (list Z * list Z)) | IndexError | IndexOutOfFuel.
+
+(* one group per iteration: '[' name ']' numbers; then the next word decides: none -> done; begins with '[' -> next
+   group; anything else -> error (strict, after the repair) or silent end of the reading (pinned) *)
+Fixpoint index_loop (strict : bool) (fuel : nat) (l : list Z) (gs : list (list Z * list Z)) : index_result :=
+  match fuel with
+  | O => IndexOutOfFuel
+  | S f =>
+    match expect_char 91 l with
+    | None => IndexError
+    | Some l1 =>
+      match extract_word (skip_space l1) with
+      | ExtFail => IndexError
+      | ExtOk name l2 =>
+        match expect_char 93 l2 with
+        | None => IndexError
+        | Some l3 =>
+          let '(nums, rest) := index_numbers (S (length l3)) l3 in
+          match (match assoc_find name gs with
+                 | Some old => if int_list_eqb old nums then Some gs else None      (* redefinition with other atoms *)
+                 | None => Some (gs ++ [(name, nums)])
+                 end) with
+          | None => IndexError
+          | Some gs' =>
+            match skip_space rest with
+            | [] => IndexOk gs'
+            | c :: t => if c =? 91 then index_loop strict f rest gs'
+                        else if strict then IndexError else IndexOk gs'
+            end
+          end
+        end
+      end
+    end
+  end.
+
+Definition parse_index (strict : bool) (text : list Z) : index_result :=
+  index_loop strict (S (length text)) text [].
